@@ -601,6 +601,37 @@ impl Domain for D {
                 }
             }
         }
+        // malformed streams for every read kind: negative / huge / just-too-large length prefixes of
+        // `data`, random bytes, followed by further reads (what is left after a failed read is
+        // part of the observable behaviour: `as_slice`, later reads, `finish`)
+        let lens: [i64; 12] = [-1, -2, -64, -65, -2147483648, 2147483647, 64, 65, 8191, 8192, 1, 0];
+        for &l in &lens {
+            for tail in [0usize, 1, 3, 70] {
+                let mut e = write_int(l as i32);
+                e.extend(rng.bytes(tail));
+                for follow in ["d", "d i", "d s", "d r:1", "d t", "i d", "s d"] {
+                    writeln!(w, "unpack plain {} {}", to_hex(&e), follow).unwrap();
+                }
+                // exactly one byte short / exact / one byte more than announced
+                if l >= 0 && l <= 70 {
+                    for delta in [-1i64, 0, 1] {
+                        let n = (l + delta).max(0) as usize;
+                        let mut e = write_int(l as i32);
+                        e.extend(rng.bytes(n));
+                        writeln!(w, "unpack plain {} d t", to_hex(&e)).unwrap();
+                    }
+                }
+            }
+        }
+        let n = if thorough { 20000 } else { 2000 };
+        let kinds_pool = ["i", "s", "d", "r:0", "r:1", "r:4", "r:9", "t"];
+        for _ in 0..n {
+            let len = rng.below(14) as usize;
+            let bs = rng.bytes(len);
+            let k = 1 + rng.below(4) as usize;
+            let ks: Vec<&str> = (0..k).map(|_| *rng.pick(&kinds_pool)).collect();
+            writeln!(w, "unpack plain {} {}", to_hex(&bs), ks.join(" ")).unwrap();
+        }
         // string helpers: boundary shapes first
         for &k in &[1usize, 3, 4, 6] {
             for len in [0usize, 1, k * 4 - 2, k * 4 - 1, k * 4, k * 4 + 1] {
